@@ -187,6 +187,9 @@ def run(tier="quick"):
     for u in ("linked_list.c", "dlinked_list.c"):
         nd += LR.check_chain_derefs(chk, prog, u, only=names)[1]
     nf, nund, samples = C02.cap_array(chk, prog, fns)
+    nqf, nundq = LR.check_bisection(chk, prog, fns, NORETURN, "Q1")
+    chk.count("bisection_functions", nqf, floor=1)
+    nund += nundq
     check_pair_comp(chk, prog)
     C02.init_diag(chk, prog, UNITS, only=names)
     chk.count("map_functions", len(fns), floor=27)
